@@ -257,4 +257,43 @@ def recovered (p : Wal.WalParams) (crc : Bytes → Nat) (c : CSt) (k : Nat) : Li
 def ackedBefore (c : CSt) (k : Nat) : Nat :=
   ((c.events.reverse.take (k - 1)).filter (fun e => e.site == "harness.ack")).length
 
+/-! ### Power loss: what is GUARANTEED to be on stable storage
+
+  `fsync` is called at exactly two kinds of sites: `wal.sync.synced` (syncLocked: Flush then Sync of the current log) and
+  `wal.close.synced` (Close: Flush, Sync, close — at rotation for the old log, at a clean close for the current one). At
+  such a site every byte that has reached the OS is durable: the current log was just synced and every older log was
+  synced when it was closed. Between two such sites nothing more becomes durable (a log file created meanwhile is empty
+  as far as stable storage is concerned). A power failure leaves of every log file SOME length between its synced and
+  its flushed length; the minimal survivor — exactly the synced bytes — is the adversary the harness reconstructs from
+  the system-call trace (component `power`). -/
+
+def isSyncSite (s : String) : Bool := s == "wal.sync.synced" || s == "wal.close.synced"
+
+/-- synced length of every log file after the events `evs` (NEWEST FIRST, as stored in `CSt.events`) -/
+def syncedOf : List Event → List Nat
+  | [] => []
+  | ev :: rest =>
+    if isSyncSite ev.site then ev.flushed
+    else
+      let sv := syncedOf rest
+      sv ++ List.replicate (ev.flushed.length - sv.length) 0
+
+/-- the events up to and including the k-th (1-based), newest first -/
+def eventsUpTo (c : CSt) (k : Nat) : List Event := (c.events.reverse.take k).reverse
+
+/-- synced lengths at the k-th site -/
+def syncedAt (c : CSt) (k : Nat) : List Nat := syncedOf (eventsUpTo c k)
+
+/-- what stable storage is guaranteed to hold of each log file when the power fails right at the k-th site -/
+def diskSyncedAt (c : CSt) (k : Nat) : List Bytes :=
+  (c.files.zip (syncedAt c k)).map (fun (f, n) => f.stream.take n)
+
+def recoveredPower (p : Wal.WalParams) (crc : Bytes → Nat) (c : CSt) (k : Nat) : List (Bytes × Bytes) × Nat :=
+  let es := (Wal.replayDir p crc (diskSyncedAt c k)).entries
+  (applyEntries es, Wal.maxSeqOf es)
+
+/-- 1-based positions of the acknowledgement sites -/
+def ackPositions (c : CSt) : List Nat :=
+  ((c.events.reverse.zip (List.range c.events.length)).filter (fun (e, _) => e.site == "harness.ack")).map (fun (_, i) => i + 1)
+
 end Kevo.Crash
